@@ -59,3 +59,12 @@ func TestGotoRange(t *testing.T) {
 		t.Fatalf("got %d", got)
 	}
 }
+
+func TestGlobals(t *testing.T) {
+	if got := Globals("hi"); got != "hi/3 2" {
+		t.Fatalf("got %q", got)
+	}
+	if got := Globals("h i"); got != "sentinel" {
+		t.Fatalf("got %q", got)
+	}
+}
